@@ -70,6 +70,22 @@ def run(res, proofs_ok, proofs_why, only=None):
         # the record just published, not the one it had
         from props import C03
         C03.sequence_part(res, "C11")
+        # ... and whatever way the daemon goes down between two updates - its writer thread panicking or returning,
+        # its poller dying first - the generation it leaves in the file is the even non-zero value of its last
+        # completed update (the real thread_manager::run in a private namespace, chronyd absent)
+        from concurrent.futures import ThreadPoolExecutor
+        scs = [("writer.loop", 1, 0), ("writer.loop", 2, 1), ("poller.loop", 2, 0)]
+        with ThreadPoolExecutor(max_workers=3) as ex:
+            touts = list(ex.map(lambda sc: c.run_lines_in_namespace(binary, ["thr %s %d %d 0" % sc], timeout=150)[0], scs))
+        for sc, o in zip(scs, touts):
+            res.evaluations += 1
+            res.count("generation left in the file by a daemon going down between two updates")
+            f = dict(x.split("=") for x in o.split())
+            g = int(f.get("segment_generation", -1))
+            if f.get("fired") == "1" and (g <= 0 or g % 2):
+                bad_inputs.append({"start": g, "variant": "daemon going down: thr %s %d %d 0" % sc, "after": g, "impl": o,
+                                   "why": ["the daemon published and then went down between two updates (%s, occurrence %d, %s); the generation it left in the segment file is %d - "
+                                           "it must be the even non-zero value of the last completed update" % (sc[0], sc[1], "panic" if sc[2] == 0 else "early return", g)]})
     res.samples = [{"case": l, "impl": i, "model": m} for l, i, m in list(zip(lines, impl, model))[:3] + list(zip(lines, impl, model))[-3:]]
     res.traces_validated = len(lines) - len(diffs)
     res.oblige("correspondence:gen-exhaustive", not diffs)
@@ -120,6 +136,15 @@ def replay(res, path):
     g = r.get("case", {}).get("start", 0)
     v = r.get("case", {}).get("variant", 0)
     binary, _ = c.build_harness("debug")
+    if isinstance(v, str) and "thr " in v:
+        o = c.run_lines_in_namespace(binary, [v[v.index("thr "):]], timeout=150)[0]
+        g2 = int(dict(x.split("=") for x in o.split()).get("segment_generation", -1))
+        print("case %s\nimpl %s\ngeneration left in the file: %d" % (v, o, g2))
+        return 0 if g2 > 0 and g2 % 2 == 0 else 1
+    if "file" in r.get("case", {}) or "schedule" in r.get("case", {}):
+        print(json.dumps(r.get("case"), indent=1)[:2000])
+        print("re-run with ./check C11 (the file corpus and the publication sequences are regenerated from the seed)")
+        return 1
     # variants 1 and 2 refer to the record published just before: publish one first
     line = (["gen %d" % ((g + 2) % 65536)] if v in (1, 2) else []) + ["gen %d %d" % (g, v)]
     i, m = c.run_lines(binary, line)[-1], c.run_model(["gen %d" % g])[0]
